@@ -112,6 +112,15 @@ func fixedMIDs() []midCase {
 	add("newdir", "../../N0NEW/in/x", "../../../spool/cron/x", "../newdir/x", "/abs/newdir/x", "../../Q/x", "../Q/x", "../../../../../../new/dir/deep/x", "newdir/x", "in/newdir/x", "../../mbox2/newdir/x")
 	// identifiers made of file-name pattern characters (a helper that globs instead of opening)
 	add("glob", "*", "?", "VALIDIN0000?", "[A-Z]*", "../*", "../../*/in/*", "../../deco?", "{a,b}", "../../[d]ecoy", "*/../../x")
+	// a traversal behind an element that is longer than a file name, a path or a scan bound may be: the file system would refuse
+	// the long element, but a lexical clean-up of "<long>/.." removes it before the kernel sees it (seeded change C12-20)
+	for _, n := range []int{64, 128, 200, 254, 255, 256, 257, 300, 511, 512, 513, 1023, 1024, 1025, 4095, 4096, 4097, 5000, 65536, 70000} {
+		for depth := 1; depth <= 4; depth++ {
+			up := strings.Repeat("../", depth+1)
+			add("long-prefix", strings.Repeat("A", n)+"/"+up+"x", strings.Repeat("L", n)+"/"+up+"decoy", strings.Repeat("a", n)+"\\"+up+"x")
+		}
+		add("long-prefix", strings.Repeat("A", n)+"/../../../empty", strings.Repeat("A", n)+"/../../in/x", strings.Repeat("B", n-2)+"/B/../../../../x", strings.Repeat("C", n)+"/../../../mbox2/in/x")
+	}
 	add("crlf", "x\r\nX-Evil: 1", "../../x\n", "../../x\r", "x\ny", "\r\n")
 	add("valid", "VALID0000002", "x", "AAAAAAAAAAA1", "abc123", "Z")
 	return l
